@@ -14,5 +14,12 @@ TIMER = {'test': 'TestVerifTimer', 'comp': 'timer', 'quick': {'VERIF_N': 200, 'V
 PROPS = {
     'C05': {'jobs': [RQ], 'assumptions': []},
     'C16': {'jobs': [GENF, RQ], 'assumptions': []},
-    'C19': {'jobs': [RTO, TIMER], 'assumptions': []},
+    'C19': {'jobs': [RTO, TIMER], 'assumptions': [
+        'float64 arithmetic of rtoManager / calculateNextTimeout is proved over Rat; the Float instance is compared with the Go code bit for bit on sampled sequences',
+        'timer automaton theorems assume fewer than 255 fired callbacks wait for the timer mutex at once (pending is a uint8; witness C19_pending_wrap_witness, known finding K19-pending-uint8)',
+        'timeout() is modelled as atomic including the observer call; in Go the observer runs just after the timer mutex is released (with a zero interval consecutive reports can overtake each other)',
+        'Go runtime timer semantics (Reset/Stop/AfterFunc) are the hand-written environment GoTimer; sampled under testing/synctest, callbacks delayed only through the harness gate',
+        'retry-budget, Karn and start-uses-manager-RTO are syntactic facts about call sites (argument / guard text), not data-flow',
+        'association level (SACK immediacy, 200 ms bound per DATA packet, heartbeat round trip) is not part of this check yet',
+    ]},
 }
